@@ -132,15 +132,25 @@ func c18URL(l *hx.Line, p, s string) {
 		return
 	}
 	l.B(p+"ok", true)
-	vals, qerr := url.ParseQuery(u.RawQuery)
+	vals, _ := url.ParseQuery(u.RawQuery)
 	b := *u
 	b.RawQuery, b.ForceQuery, b.Fragment, b.RawFragment = "", false, "", ""
-	l.S(p+"base", b.String())
+	l.S(p+"base", b.String()).S(p+"rawq", u.RawQuery).B(p+"fq", u.ForceQuery)
 	frag := ""
 	if u.Fragment != "" {
 		frag = "#" + u.EscapedFragment()
 	}
-	l.S(p+"frag", frag).B(p+"lossy", qerr != nil)
+	// the settings of the raw query that url.ParseQuery rejects (it skips them and reports the first error)
+	unread := []string{}
+	for _, seg := range strings.Split(u.RawQuery, "&") {
+		if seg == "" {
+			continue
+		}
+		if _, err := url.ParseQuery(seg); err != nil {
+			unread = append(unread, seg)
+		}
+	}
+	l.S(p+"frag", frag).L(p+"unread", unread)
 	keys := make([]string, 0, len(vals))
 	for k := range vals {
 		keys = append(keys, k)
@@ -467,7 +477,8 @@ func (cb *c18Bed) run(r *hx.Rand, sy *symbols, caseNo int, cs c18Case, stats map
 			}
 		}
 	}
-	// input shape of finding F-C18a: a state is to be appended to a URI whose own query Go's ParseQuery does not fully accept
+	// input shape of the repaired finding F-C18a: a state is to be appended to a URI whose own query Go's ParseQuery does not
+	// fully accept (the settings it rejects have to be in the Location unchanged: `unread` of od.* equals `unread` of up.*)
 	l.B("losstarget", lossyTarget && cs.state != "" && !cs.formErr)
 	// observation
 	loc := resp.Header.Get("Location")
